@@ -18,6 +18,10 @@
 // bounds: - (no aggregation config) | <int>,<int>… (HistogramAggregationConfig::boundaries_); a histogram stream prints a=hist[:b1:b2…]@<bucket index>
 // matcher: name | ver | schema | any | prefix
 #include "common.h"
+#include "opentelemetry/sdk/logs/logger_context_factory.h"
+#include "opentelemetry/sdk/logs/logger_provider_factory.h"
+#include "opentelemetry/sdk/trace/tracer_context_factory.h"
+#include "opentelemetry/sdk/trace/tracer_provider_factory.h"
 #include "supervised.h"
 
 #include <algorithm>
@@ -503,9 +507,37 @@ static std::string handle_sc(const std::vector<std::string> &t)
   if (kind == "t")
   {
     std::unique_ptr<st::SpanProcessor> proc(new CaptureSpans(&captured, &provider_res));
-    st::TracerProvider provider(std::move(proc), resource, std::unique_ptr<st::Sampler>(new st::AlwaysOnSampler),
-                                std::unique_ptr<st::IdGenerator>(new st::RandomIdGenerator()), build_conf<st::TracerConfig>(rules, def));
-    provider_res = &provider.GetResource();
+    // two constructors, the factory overloads that take a configurator, and a context: which one builds the provider
+    // depends on the case; the scope rules must reach the tracers through every one of them
+    auto smp  = []() { return std::unique_ptr<st::Sampler>(new st::AlwaysOnSampler); };
+    auto idg  = []() { return std::unique_ptr<st::IdGenerator>(new st::RandomIdGenerator()); };
+    auto conf = build_conf<st::TracerConfig>(rules, def);
+    std::vector<std::unique_ptr<st::SpanProcessor>> procs;
+    std::unique_ptr<st::TracerProvider> provider_p;
+    switch ((rules.size() + reqs.size()) % 5)
+    {
+      case 1:
+        procs.push_back(std::move(proc));
+        provider_p.reset(new st::TracerProvider(std::move(procs), resource, smp(), idg(), std::move(conf)));
+        break;
+      case 2:
+        procs.push_back(std::move(proc));
+        provider_p = st::TracerProviderFactory::Create(std::move(procs), resource, smp(), idg(), std::move(conf));
+        break;
+      case 3:
+        provider_p = st::TracerProviderFactory::Create(std::move(proc), resource, smp(), idg(), std::move(conf));
+        break;
+      case 4:
+        procs.push_back(std::move(proc));
+        provider_p = st::TracerProviderFactory::Create(
+            st::TracerContextFactory::Create(std::move(procs), resource, smp(), idg(), std::move(conf)));
+        break;
+      default:
+        provider_p.reset(new st::TracerProvider(std::move(proc), resource, smp(), idg(), std::move(conf)));
+        break;
+    }
+    st::TracerProvider &provider = *provider_p;
+    provider_res                 = &provider.GetResource();
     std::vector<nostd::shared_ptr<opentelemetry::trace::Tracer>> keep;
     for (size_t k = 0; k < reqs.size(); k++)
     {
@@ -532,8 +564,32 @@ static std::string handle_sc(const std::vector<std::string> &t)
   if (kind == "l")
   {
     std::unique_ptr<sl::LogRecordProcessor> proc(new CaptureLogs(&captured, &provider_res));
-    sl::LoggerProvider provider(std::move(proc), resource, build_conf<sl::LoggerConfig>(rules, def));
-    provider_res = &provider.GetResource();
+    auto conf = build_conf<sl::LoggerConfig>(rules, def);
+    std::vector<std::unique_ptr<sl::LogRecordProcessor>> procs;
+    std::unique_ptr<sl::LoggerProvider> provider_p;
+    switch ((rules.size() + reqs.size()) % 5)
+    {
+      case 1:
+        procs.push_back(std::move(proc));
+        provider_p.reset(new sl::LoggerProvider(std::move(procs), resource, std::move(conf)));
+        break;
+      case 2:
+        procs.push_back(std::move(proc));
+        provider_p = sl::LoggerProviderFactory::Create(std::move(procs), resource, std::move(conf));
+        break;
+      case 3:
+        provider_p = sl::LoggerProviderFactory::Create(std::move(proc), resource, std::move(conf));
+        break;
+      case 4:
+        procs.push_back(std::move(proc));
+        provider_p = sl::LoggerProviderFactory::Create(sl::LoggerContextFactory::Create(std::move(procs), resource, std::move(conf)));
+        break;
+      default:
+        provider_p.reset(new sl::LoggerProvider(std::move(proc), resource, std::move(conf)));
+        break;
+    }
+    sl::LoggerProvider &provider = *provider_p;
+    provider_res                 = &provider.GetResource();
     std::vector<nostd::shared_ptr<opentelemetry::logs::Logger>> keep;
     for (size_t k = 0; k < reqs.size(); k++)
     {
